@@ -469,7 +469,14 @@ fn parse_rp_command(command: &mut std::str::SplitN<&str>) -> Result<Request, Str
 
     // A wrapper never wraps another wrapper: the handler runs the wrapped command through
     // process_request again, so `rp 1 rp 1 rp 1 ...` recursed once per level until the stack ran out
-    if request_str.splitn(2, " ").next() == Some("rp") {
+    // (judged the way process_request will parse it: line feeds at both ends and trailing `;` go first)
+    if request_str
+        .trim_matches('\n')
+        .trim_end_matches(';')
+        .splitn(2, " ")
+        .next()
+        == Some("rp")
+    {
         return Err(format!("Invalid replication request str"));
     }
 
